@@ -24,6 +24,7 @@ Contains the Decoder Loop Filtering related functions*/
 #include "EbDecNbr.h"
 #include "EbDecLF.h"
 #include "common_dsp_rtcd.h"
+#include "EbVerifHooks.h"
 #define FILTER_LEN 4
 
 /*Filter_length is mapped to int indx for the filter tap arrays*/
@@ -729,6 +730,7 @@ void dec_loop_filter_row(EbDecHandle *dec_handle_ptr, EbPictureBufferDesc *recon
             while (*sb_lf_completed_in_prev_row < MIN((x_sb_index + 2), pic_width_in_sb - 1))
                 ;
         }
+        SVT_VERIF_EV("decsb", dec_handle_ptr, "SbBeg", 1, y_sb_index, x_sb_index, y_sb_index != 0, pic_width_in_sb - 1, 0);
         /*LF function for a SB*/
         dec_loop_filter_sb(dec_handle_ptr,
                            sb_info,
@@ -742,6 +744,7 @@ void dec_loop_filter_row(EbDecHandle *dec_handle_ptr, EbPictureBufferDesc *recon
                            plane_end,
                            end_of_row_flag,
                            sb_info->sb_delta_lf);
+        SVT_VERIF_EV("decsb", dec_handle_ptr, "SbEnd", 1, y_sb_index, x_sb_index);
         /* Update Top-Right Sync*/
         *sb_lf_completed_in_row = x_sb_index;
     }
